@@ -46,7 +46,7 @@ class C05(Prop):
                            "baize.concurrency.run_in_threadpool"],
                   "stub": ["ASGI server (protocol monitor)", "WSGI server (PEP 3333 monitor)", "event loop clock/selector, executor inlined at seeded instants",
                            "os.open/os.read/os.lseek/open() fault injection on real temp files", "WSGI SSE runs without a ping timer race (single producer thread joined by the real pool is replaced by SimThreads)"]}
-    hard_probes = ("disconnect", "send_raises", "server_close_early", "producer_raises", "io_error_os_read", "io_error_file_read", "zerocopy_message", "range_error_response", "staticapp", "file_vanished")
+    hard_probes = ("disconnect", "send_raises", "server_close_early", "producer_raises", "io_error_os_read", "io_error_file_read", "zerocopy_message", "range_error_response", "staticapp", "file_vanished", "ws_denial_prelude", "app_task_cancelled", "bystander_download")
     quick_runs = 60000
     thorough_runs = 1200000
     batch = 250
@@ -65,7 +65,11 @@ class C05(Prop):
         r = recipes.gen_recipe(t, kinds=["response", "text", "html", "json", "redirect", "stream", "sse", "file", "file", "staticapp"], files=FILES)
         plan = {"iface": iface, "recipe": r, "method": t.weighted([(4, "GET"), (1, "HEAD"), (1, "POST")]),
                 "zerocopy": t.draw(3) == 0, "raising": t.draw(3) == 0, "range": None, "if_range": None,
-                "lat": t.choice(["fast", "mixed"])}
+                "lat": t.choice(["fast", "mixed"]),
+                # history before the response: a websocket handshake refused through the denial-response extension
+                "ws_prelude": iface == "asgi" and t.draw(6) == 0,
+                # another download going on at the same time on the same loop (its start delay)
+                "bystander": t.choice([None, None, 0.0, 0.001, 0.01]) if iface == "asgi" else None}
         if r["kind"] == "staticapp":
             plan["range"] = t.choice([None, None, None, "bytes=0-1", "bytes=9-"])
             plan["if_range"] = None
@@ -87,6 +91,7 @@ class C05(Prop):
         if plan["iface"] == "asgi":
             vs += [("disc", j) for j in pts]
             vs += [("sendraise", j) for j in pts if j >= 1]
+            vs += [("cancel", j) for j in pts if j >= 1]      # the server cancels the application task after the j-th send
         else:
             vs += [("close", j) for j in pts]
         r = plan["recipe"]
@@ -150,6 +155,12 @@ class C05(Prop):
                 ctx.notes["io_calls"] = dict(fs.calls)
             fs.fault_plan = {}
             fs.ctx = None
+            for fd in list(fs.fds):       # descriptors left open by cancelled / failed runs
+                try:
+                    simfs._real_close(fd)
+                except OSError:
+                    pass
+            fs.fds.clear()
         for key, detail in ctx.monitor_trips:
             ctx.violate("C05|%s|%s" % (key, r["kind"]), "%s %s" % (detail, self._ctx_of(plan, variant)))
 
@@ -165,6 +176,8 @@ class C05(Prop):
         if isinstance(exc, InjectedSendError) and variant is not None and variant[0] == "sendraise":
             return
         if isinstance(exc, ClientGone) and plan["raising"] and variant is not None and variant[0] == "disc":
+            return
+        if isinstance(exc, asyncio.CancelledError) and variant is not None and variant[0] == "cancel":
             return
         if isinstance(exc, (simfs.InjectedIOError, simfs.InjectedVanish)) and variant is not None and variant[0] == "io":
             return
@@ -185,20 +198,67 @@ class C05(Prop):
         if variant is not None and variant[0] == "sendraise":
             kw["send_raise_at"] = variant[1]
 
+        cancel_after = variant[1] if variant is not None and variant[0] == "cancel" else None
+        by = {"exc": None, "status": None, "body": None, "complete": None}
+
         async def scenario(loop):
+            if plan.get("ws_prelude"):
+                await self._ws_denial_prelude(ctx)
             peer = AsgiHttpPeer(loop, ctx, ctx.sched, req, zerocopy=plan["zerocopy"], raise_after_disconnect=plan["raising"],
                                 send_lats=lats, surface="asgi", **kw)
-            exc = None
-            try:
+
+            async def main():
                 resp = recipes.build(r, "asgi", self.fs, {"boom": boom})
                 await resp(peer.scope, peer.receive, peer.send)
-            except BaseException as e:  # noqa
-                if isinstance(e, (asyncio.CancelledError, SimDeadlock, SimTimeLimit, SimStepLimit)):
-                    raise
-                exc = e
+
+            async def bystander(delay):
+                from baize.asgi import FileResponse
+                if delay:
+                    await asyncio.sleep(delay)
+                bpeer = AsgiHttpPeer(loop, ctx, ctx.sched, AbstractRequest("GET", "/by", body=b""), send_lats=(0.0, 0.001), surface="asgi-bystander")
+                try:
+                    await FileResponse(self.fs.path("f/k.dat"), chunk_size=256)(bpeer.scope, bpeer.receive, bpeer.send)
+                    bpeer.monitor.on_return()
+                except BaseException as e:  # noqa
+                    if isinstance(e, (asyncio.CancelledError, SimDeadlock, SimTimeLimit, SimStepLimit)):
+                        raise
+                    by["exc"] = e
+                by.update(status=bpeer.status, body=len(bpeer.body), complete=bpeer.complete)
+
+            task = loop.create_task(main(), name="app")
+            btask = None
+            if plan.get("bystander") is not None and variant is not None and variant[0] in ("cancel", "sendraise"):
+                ctx.probe("bystander_download")
+                btask = loop.create_task(bystander(plan["bystander"]), name="bystander")
+            if cancel_after is not None:
+                real_send = peer.send
+
+                async def send(msg):
+                    await real_send(msg)
+                    if peer.sends_completed == cancel_after:
+                        ctx.fault("app_task_cancelled")
+                        task.cancel()
+
+                peer.send = send
+            exc = None
+            try:
+                await asyncio.wait([task])
+                if task.cancelled():
+                    exc = asyncio.CancelledError()
+                elif task.exception() is not None:
+                    exc = task.exception()
+            finally:
+                pass
+            if isinstance(exc, (SimDeadlock, SimTimeLimit, SimStepLimit)):
+                raise exc
             if exc is None:
                 peer.monitor.on_return()
-            await asyncio.sleep(0.01)
+            if btask is not None:
+                await asyncio.wait([btask], timeout=600.0)
+                if not btask.done():
+                    by["exc"] = TimeoutError("bystander download never finished")
+                    btask.cancel()
+            await asyncio.sleep(0.3)
             return exc, peer.send_calls, peer.status, peer.complete
 
         try:
@@ -213,8 +273,44 @@ class C05(Prop):
         if status in (400, 416) and r["kind"] == "file":
             ctx.probe("range_error_response")
         self._allowed_exc(ctx, "asgi", r["kind"], exc, variant, boom, plan)
+        if by["status"] is not None or by["exc"] is not None:
+            # an unrelated download on the same loop must not be disturbed by what happens to this response
+            if by["exc"] is not None:
+                ctx.violate("C05|asgi|bystander-download-failed|%s|%s" % (r["kind"], type(by["exc"]).__name__), "%r %s" % (by["exc"], self._ctx_of(plan, variant)))
+            elif by["status"] != 200 or by["body"] != 1000 or not by["complete"]:
+                ctx.violate("C05|asgi|bystander-download-damaged|%s" % r["kind"], "status %s, %s bytes, complete %s %s" % (by["status"], by["body"], by["complete"], self._ctx_of(plan, variant)))
         if variant is None and exc is None and not complete:
             ctx.violate("C05|asgi|returned-without-complete-response|%s" % r["kind"], self._ctx_of(plan, variant))
+
+    async def _ws_denial_prelude(self, ctx):
+        """A websocket handshake answered by an HTTP view: request_response refuses it through the denial-response extension."""
+        import baize.asgi as M
+        ctx.probe("ws_denial_prelude")
+
+        @M.request_response
+        async def view(request):
+            return M.PlainTextResponse("never reached")
+
+        sent = []
+
+        async def receive():
+            return {"type": "websocket.connect"} if not sent else {"type": "websocket.disconnect", "code": 1006}
+
+        async def send(msg):
+            sent.append(msg.get("type"))
+
+        scope = {"type": "websocket", "path": "/ws", "root_path": "", "query_string": b"", "headers": [], "scheme": "ws",
+                 "extensions": {"websocket.http.response": {}}, "subprotocols": []}
+        try:
+            await view(scope, receive, send)
+        except asyncio.CancelledError:
+            raise
+        except Exception as e:
+            ctx.violate("C05|asgi|websocket-denial-raised|%s" % type(e).__name__, repr(e))
+            return
+        ctx.ev("ws-prelude", tuple(sent))
+        if sent[:1] != ["websocket.http.response.start"] or sent[-1:] != ["websocket.http.response.body"]:
+            ctx.violate("C05|asgi|websocket-denial-sequence", repr(sent))
 
     # ======================= WSGI =======================
     def _wsgi(self, plan, ctx, variant, r, req, boom):
